@@ -35,9 +35,15 @@ func worldC20(w *World) {
 	for i := 0; i < nPeriodic; i++ {
 		periodic = append(periodic, !t.Rare(failPct, 100, "fail?"))
 	}
+	// some health checks are answered late (longer than one interval)
+	stallPct := []int{0, 0, 30}[t.Choice(3, "stallpct")]
+	var stalls []bool
+	for i := 0; i < nStartFail+nPeriodic+8; i++ {
+		stalls = append(stalls, t.Rare(stallPct, 100, "stall?"))
+	}
 	signal := t.Rare(2, 3, "signal?")
 	sig := []syscall.Signal{syscall.SIGINT, syscall.SIGTERM}[t.Choice(2, "which")]
-	grace := []time.Duration{0, 2 * time.Second, 10 * time.Second, 30 * time.Second}[t.Choice(4, "grace")]
+	grace := []time.Duration{0, 2 * time.Second, 10 * time.Second, 30 * time.Second, 2800 * time.Millisecond, 900 * time.Millisecond}[t.Choice(6, "grace")]
 	sigDelay := []time.Duration{0, time.Millisecond, 500 * time.Millisecond, 999 * time.Millisecond, time.Second, 1001 * time.Millisecond, 3 * time.Second, 12 * time.Second, 31 * time.Second}[t.Choice(9, "sigdelay")]
 	workLat := []time.Duration{0, time.Second, 5 * time.Second, 20 * time.Second}[t.Choice(4, "worklat")]
 	listDelay := []time.Duration{0, time.Second, 4 * time.Second}[t.Choice(3, "listdelay")]
@@ -107,6 +113,14 @@ func worldC20(w *World) {
 				} else if p := n - nStartFail - 1; p >= 0 && p < len(periodic) {
 					pass = periodic[p]
 				}
+				stall := n < len(stalls) && stalls[n]
+				mu.Unlock()
+				if stall {
+					// the answer comes, but only after one and a half intervals
+					time.Sleep(time.Duration(interval) * 1500 * time.Millisecond)
+					w.Probe("health_check_answered_late")
+				}
+				mu.Lock()
 				checks = append(checks, hc{w.K.Now(), pass})
 				mu.Unlock()
 				if pass {
